@@ -565,9 +565,26 @@ def _clip(s, n=220):
 
 
 # ----------------------------------------------------------------------
+def _matrix_literal(v):
+    """6x6 list-of-lists literal (possibly wrapped in astensor(...))."""
+    while isinstance(v, ast.Call) and v.args:
+        v = v.args[0]
+    if isinstance(v, ast.List) and len(v.elts) == 6 and all(isinstance(r, ast.List) and len(r.elts) == 6 for r in v.elts):
+        return v
+    return None
+
+
+def _vector_literal(v):
+    """6-element list literal of scalars mentioning log (possibly wrapped in stack(...))."""
+    while isinstance(v, ast.Call) and v.args and A.call_attr(v) in ("stack", "astensor", "array", "asarray"):
+        v = v.args[0]
+    if isinstance(v, ast.List) and len(v.elts) == 6 and not any(isinstance(r, ast.List) for r in v.elts) and "log" in A.unparse(v):
+        return v
+    return None
+
+
 def _fold_rule(ctx, rid, prs):
     a0 = Poly.atom("a0")
-    # defining matrix rows: f(a0), f(-a0), f'(a0), f'(-a0), f''(a0), f''(-a0) for f = sum_{i=1..6} a_i alpha^i
     x = Poly.atom("x")
     Adef = []
     for order in (0, 1, 2):
@@ -579,59 +596,66 @@ def _fold_rule(ctx, rid, prs):
                     p = p.diff("x")
                 row.append(p.subs({"x": a0 * sgn}))
             Adef.append(row)
-    du, dd = Poly.atom("du"), Poly.atom("dd")
+    du, dd = Poly.atom("U") / Poly.atom("N"), Poly.atom("D") / Poly.atom("N")
     P, Q = fn("pow", du, a0), fn("pow", dd, a0)
     Lu, Ld = fn("log", du), fn("log", dd)
     bdef = [P - 1, Q - 1, Lu * P, -Ld * Q, Lu * Lu * P, Ld * Ld * Q]
     n = 0
     for key, f, s, node in prs:
-        for cls in (f, s):
+        if key != 4:
+            continue
+        for cls, kind in ((f, "fast"), (s, "slow")):
+            # interpret the method that holds the literals, recording every assignment
+            holder = None
             for m in cls.methods.values():
-                for st in ast.walk(m.node):
-                    if isinstance(st, ast.Assign) and any(isinstance(t, ast.Name) and t.id == "A_inverse" for t in st.targets):
-                        n += 1
-                        site = f"{cls.relpath}::{cls.name}.{m.name}: A_inverse"
-                        lit = st.value
-                        while isinstance(lit, ast.Call) and lit.args:
-                            lit = lit.args[0]
-                        try:
-                            it = Interp({"alpha0": a0}, {"alpha0": a0}, {}, cls_name=cls.name)
-                            M = it.eval(lit)
-                            if not (isinstance(M, list) and len(M) == 6 and all(isinstance(r, list) and len(r) == 6 for r in M)):
-                                raise Undecided("A_inverse is not a 6x6 literal")
-                            bad = []
-                            for i in range(6):
-                                for j in range(6):
-                                    tot = Poly()
-                                    for k in range(6):
-                                        tot = tot + to_poly(M[i][k]) * Adef[k][j]
-                                    want = Poly.const(1 if i == j else 0)
-                                    if tot != want:
-                                        bad.append((i, j, tot))
-                            if bad:
-                                i, j, tot = bad[0]
-                                ctx.violated(rid, m, f"A_inverse ({cls.name})", f"the A_inverse literal is not the inverse of the matrix that defines code 4 ({len(bad)} of 36 entries of A_inverse*A differ from the identity; first: [{i}][{j}] = {tot})",
-                                             expected="A_inverse * A == I for every alpha0", found=f"row {bad[0][0]} of the literal is wrong", node=st)
-                            else:
-                                ctx.holds(rid, site, "A_inverse * A == I symbolically in alpha0 (36 entries)")
-                        except Undecided as e:
-                            ctx.unrecognised(rid, m, "A_inverse", f"literal not foldable: {e}")
-                    # rhs vector named b
-                    if isinstance(st, ast.Assign) and any(isinstance(t, ast.Name) and t.id == "b" for t in st.targets) and cls.name in ("code4", "_slow_code4"):
-                        site = f"{cls.relpath}::{cls.name}.{m.name}: b"
-                        try:
-                            env = {"delta_up": du, "delta_down": dd, "alpha0": a0, "deltas_up_alpha0": P, "deltas_dn_alpha0": Q, "delta_up_alpha0": P, "delta_down_alpha0": Q}
-                            attrs = {"_deltas_up": du, "_deltas_dn": dd, "_broadcast_helper": Poly.const(1), "alpha0": a0, "_alpha0": a0}
-                            it = Interp(env, attrs, {}, cls_name=cls.name)
-                            v = it.eval(st.value)
-                            if isinstance(v, list) and len(v) == 6:
-                                diffs = [i for i in range(6) if to_poly(v[i]) != bdef[i]]
-                                if diffs:
-                                    ctx.violated(rid, m, f"b ({cls.name})", f"right-hand side entry {diffs[0]} of the code 4 boundary system is {to_poly(v[diffs[0]])}, the defining value is {bdef[diffs[0]]}", expected=str(bdef[diffs[0]]), found=str(to_poly(v[diffs[0]])), node=st)
-                                else:
-                                    ctx.holds(rid, site, "rhs = [u^a0-1, d^a0-1, ln u u^a0, -ln d d^a0, ln^2 u u^a0, ln^2 d d^a0]")
-                        except Undecided as e:
-                            ctx.undecided(rid, site, str(e))
+                if any(isinstance(st, ast.Assign) and _matrix_literal(st.value) is not None for st in ast.walk(m.node)):
+                    holder = m
+            if holder is None:
+                continue
+            try:
+                if kind == "fast":
+                    it = Interp({"histogramssets": HistSet(), "subscribe": True, "alpha0": a0}, {}, {"a0": A0_REP}, cls_name=cls.name)
+                    it.run(A.strip_docstring(holder.node.body))
+                else:
+                    it = Interp({}, {"alpha0": a0}, {"alpha": Fraction(0), "a0": A0_REP}, cls_name=cls.name)
+                    it.call_function(holder.node, [Poly.atom("D"), Poly.atom("N"), Poly.atom("U"), Poly.atom("alpha")], bind_self=True)
+            except Undecided as e:
+                ctx.unrecognised(rid, holder, "A_inverse", f"holder method not interpretable: {e}")
+                continue
+            for st in ast.walk(holder.node):
+                if not isinstance(st, ast.Assign):
+                    continue
+                site = f"{cls.relpath}::{cls.name}.{holder.name}"
+                if _matrix_literal(st.value) is not None:
+                    n += 1
+                    M = it.assign_trace.get(id(st))
+                    if not (isinstance(M, list) and len(M) == 6 and all(isinstance(r, list) and len(r) == 6 for r in M)):
+                        ctx.unrecognised(rid, holder, "A_inverse", "6x6 literal was not evaluated")
+                        continue
+                    bad = []
+                    for i in range(6):
+                        for j in range(6):
+                            tot = Poly()
+                            for k in range(6):
+                                tot = tot + to_poly(M[i][k]) * Adef[k][j]
+                            if tot != Poly.const(1 if i == j else 0):
+                                bad.append((i, j, tot))
+                    if bad:
+                        i, j, tot = bad[0]
+                        ctx.violated(rid, holder, f"A_inverse ({cls.name})", f"the A_inverse literal is not the inverse of the matrix that defines code 4 ({len(bad)} of 36 entries of A_inverse*A differ from the identity; first: [{i}][{j}] = {tot})",
+                                     expected="A_inverse * A == I for every alpha0", found=f"row {bad[0][0]} of the literal is wrong", node=st)
+                    else:
+                        ctx.holds(rid, site + ": A_inverse", "A_inverse * A == I symbolically in alpha0 (36 entries)")
+                elif _vector_literal(st.value) is not None:
+                    v = it.assign_trace.get(id(st))
+                    if isinstance(v, list) and len(v) == 6:
+                        diffs = [i for i in range(6) if to_poly(v[i]) != bdef[i]]
+                        if diffs:
+                            ctx.violated(rid, holder, f"b ({cls.name})", f"right-hand side entry {diffs[0]} of the code 4 boundary system is {to_poly(v[diffs[0]])}, the defining value is {bdef[diffs[0]]}", expected=str(bdef[diffs[0]]), found=str(to_poly(v[diffs[0]])), node=st)
+                        else:
+                            ctx.holds(rid, site + ": rhs", "rhs = [u^a0-1, d^a0-1, ln u u^a0, -ln d d^a0, ln^2 u u^a0, ln^2 d d^a0]")
+                    else:
+                        ctx.undecided(rid, site + ": rhs", "rhs vector not evaluated")
     if n < 2:
         ctx.error(f"C03.R4: only {n} A_inverse literal(s) found, floor 2")
 
